@@ -81,4 +81,10 @@ TEXT = {
         design_ref='DESIGN.md §5 C16',
         note="Derived and hand-written user types declare Identity = Self (the derive emits it); they are covered by the derive stream's table lookups, not by a theorem. rustc/TypeId trusted.",
     ),
+    'C04': dict(
+        technique='Lean 4 proof that a schema-directed SCALE decoder inverts the SCALE encoder on every well-typed value (mutual induction on the typing derivation, incl. big compact integers and bit sequences) and that every value of a built-in type is well typed against any faithful registry + compiled corpus of std types with real registries and real encodings',
+        level="Proof: SIM.C04.decode_encode (for EVERY registry, id and value with HasTy reg id v the registry-only decoder consumes encode v exactly and returns v), builtin_typed / builtin_roundtrip (for every built-in type expression, nested to any depth, and every value shape of it, against any registry that describes the type faithfully - the conclusion of C02), decode_fuel_mono, variant_index_first_byte, tuple_shape, char_shape, nonzero_shape, duration_shape, array_len_mod. Tie: generated Rust program; the decoder is run on the real registry and real bytes (oracle), model registry and model bytes are compared with the real ones (correspondence).",
+        design_ref='DESIGN.md §5 C04, §6',
+        note="partial: parity-scale-codec's Encode impls are modelled (Spec.ValOf / Value.encode), tied only by the differential runs; the glue 'registry produced by Registry from Impls.typeInfo is Faithful' is C02's theorem plus the TyExpr->Nat encoding done by the driver (compared with the real registry on every case). KNOWN-FINDING: arrays of length >= 2^32 (format limit).",
+    ),
 }
